@@ -43,9 +43,10 @@ class Undecided(Exception):
     pass
 
 
-def load_unit(name, features=None, variant=None):
+def load_unit(name, features=None, variant=None, stub_keys=None):
     mod = importlib.import_module("units.%s.unit" % name)
     u = gen.Unit(name if not variant else "%s-%s" % (name, variant), features=features)
+    u.stub_keys = dict(stub_keys or {})
     try:
         if variant is not None:
             mod.build(u, variant)
@@ -158,19 +159,33 @@ def func_results(res):
 def run_unit(name, features=None, variant=None, seed=0, canary=True, threads=8):
     """returns dict(status, failures, others, funcs, canary..., unit, paths)"""
     os.makedirs(BUILD, exist_ok=True)
-    u = load_unit(name, features, variant)
-    text, linemap = u.generate(canary=False)
-    base = u.name.replace("-", "_")
-    path = os.path.join(BUILD, base + ".rs")
-    open(path, "w").write(text)
     extra = []
     if seed:
         extra += ["--smt-option", "smt.random_seed=%d" % (seed % 1000)]
-    res = verus(path, seed, threads, extra)
+    stub_keys = {}
+    for attempt in range(4):
+        u = load_unit(name, features, variant, stub_keys)
+        text, linemap = u.generate(canary=False)
+        base = u.name.replace("-", "_")
+        path = os.path.join(BUILD, base + ".rs")
+        open(path, "w").write(text)
+        res = verus(path, seed, threads, extra)
+        f0, o0 = classify(res, linemap)
+        # compile-level problems inside an EXTRACTED function: stub that function (assumed contract) and retry, so
+        # that properties which do not depend on it are still decided
+        new = {}
+        for o in o0:
+            k = o.get("site_item")
+            if k and o.get("site_kind") not in ("spec", "glue", "?", None) and k not in stub_keys and any(f["item"] == k and f.get("kind") == "fn" for f in u.functions):
+                new[k] = "%s [%s]" % (o["message"][:200], o["why"])
+        if not new:
+            break
+        stub_keys.update(new)
     failures, others = classify(res, linemap)
     funcs = func_results(res)
     vr = (res["json"] or {}).get("verification-results", {})
     result = {
+        "stubbed": dict(u.stubbed),
         "unit": u, "path": path, "res": res, "failures": failures, "others": others, "funcs": funcs,
         "verified": vr.get("verified", 0), "errors": vr.get("errors", 0), "wall": res["wall"],
         "smt_ms": ((res["json"] or {}).get("times-ms", {}).get("smt", {}) or {}).get("total") if isinstance((res["json"] or {}).get("times-ms", {}).get("smt"), dict) else None,
@@ -191,7 +206,8 @@ def run_unit(name, features=None, variant=None, seed=0, canary=True, threads=8):
     else:
         result["status"] = "ok"
     # expected functions present?
-    missing = [f for f in u.expected if not any(k.endswith("::" + f) for k in funcs)]
+    stub_names = set(k.split("::")[-1].split("[")[0] for k in u.stubbed)
+    missing = [f for f in u.expected if f not in stub_names and not any(k.endswith("::" + f) for k in funcs)]
     if missing and result["status"] == "ok":
         result["status"] = "undecided"
         result["why"] = "expected functions not verified (vacuity guard): %s" % missing
